@@ -589,6 +589,10 @@ def check_frame(I, pfx, allowed):
     log = I.write_logs[0]
     bad = []
     for oid, what in log:
+        if oid >= 0 and I.heap.get(oid, {}).get("borrowed"):
+            # an object handed out by a callee that keeps using it (e.g. the transmitter's own partition lists): not the caller's to write
+            bad.append((oid, "%s of a borrowed %s" % (what, I.heap[oid].get("borrowed"))))
+            continue
         if oid >= I.first_new_oid and oid >= 0:
             continue
         if (oid, "*") in allowed or (oid, what) in allowed:
